@@ -500,8 +500,8 @@ func within(a *analysis, i, anc int) bool {
 
 func TestCheck(t *testing.T) {
 	vcommon.Main(t, "C16",
-		vcommon.S("layout", 64000, 1600000, genLayoutCase(), checkCase),
-		vcommon.S("snippets", 24000, 500000, genSnippetCase(), checkCase),
-		vcommon.S("soup", 24000, 500000, genSoupCase(), checkCase),
+		vcommon.S("layout", 32000, 1600000, genLayoutCase(), checkCase),
+		vcommon.S("snippets", 12000, 500000, genSnippetCase(), checkCase),
+		vcommon.S("soup", 12000, 500000, genSoupCase(), checkCase),
 	)
 }
